@@ -33,6 +33,46 @@ theorem wcscpy_s_C05 (cfg : Cfg) (dest dmax src : Nat) (st : St) (hs : Setting s
       (code ≠ EOK → st'.events = st.events ++ [.handler .str code]) := by
   rw [wcscpy_eq]; exact strcpyG_C05 _ cfg dest dmax src st hs hrw
 
+/-- strncpy_s / strcat_s: exactly-once for all arguments -/
+theorem strncpy_s_C05 (cfg : Cfg) (dest dmax src slen : Nat) (st : St) (hs : Setting st)
+    (hrw : dest ≠ 0 → RW st dest dmax) :
+    ∃ code st', exec (strncpy_s cfg dest dmax src slen none none) st = .ok (code, st') ∧
+      (code = EOK → st'.events = st.events) ∧
+      (code ≠ EOK → st'.events = st.events ++ [.handler .str code]) := by
+  obtain ⟨code, st', he, hp, _⟩ := strncpyG_safe _ cfg dest dmax src slen st hs.all hrw (Nat.le_refl _)
+  exact ⟨code, st', he, hp.ok_events, hp.fail_events⟩
+
+theorem strcat_s_C05 (cfg : Cfg) (dest dmax src : Nat) (st : St) (hs : Setting st)
+    (hrw : dest ≠ 0 → RW st dest dmax) :
+    ∃ code st', exec (strcat_s cfg dest dmax src none) st = .ok (code, st') ∧
+      (code = EOK → st'.events = st.events) ∧
+      (code ≠ EOK → st'.events = st.events ++ [.handler .str code]) := by
+  obtain ⟨code, st', he, hp, _⟩ := strcatG_safe _ cfg dest dmax src st hs.all hrw
+  exact ⟨code, st', he, hp.ok_events, hp.fail_events⟩
+
+/-- strncat_s: FULL statement is false of the code — `slen = 0` calls the handler with code EOK
+(`strncat-slen0-handler-eok`); partial theorem under `slen ≠ 0`, witness below -/
+theorem strncat_s_C05_partial (cfg : Cfg) (dest dmax src slen : Nat) (st : St) (hs : Setting st)
+    (hrw : dest ≠ 0 → RW st dest dmax) (hslen : slen ≠ 0) :
+    ∃ code st', exec (strncat_s cfg dest dmax src slen none none) st = .ok (code, st') ∧
+      (code = EOK → st'.events = st.events) ∧
+      (code ≠ EOK → st'.events = st.events ++ [.handler .str code]) := by
+  obtain ⟨code, st', he, hp, _⟩ := strncatG_safe _ cfg dest dmax src slen st hs.all hrw hslen (Nat.le_refl _)
+  exact ⟨code, st', he, hp.ok_events, hp.fail_events⟩
+
+/-- return code and number of handler events of a run (decidable observation) -/
+def observeEv (r : Except Fault (Nat × St)) : Option (Nat × List Event) :=
+  match r with
+  | .ok (c, s) => some (c, s.events)
+  | .error _ => none
+
+/-- the excluded point: strncat_s(d, 3, "a", 0) with d = "" returns EOK after invoking the handler with EOK -/
+theorem strncat_s_C05_witness :
+    observeEv (exec (strncat_s {} 100 3 200 0 none none)
+      { data := fun a => if a = 200 then 97 else 0, mapped := fun _ => true, rd := fun _ => true,
+        wr := fun a => decide (100 ≤ a ∧ a < 103) }) = some (EOK, [.handler .str EOK]) := by
+  decide
+
 /-- rejected before anything is touched: with NO cell mapped the call still returns -/
 theorem strcpyG_C05_early (max : Nat) (cfg : Cfg) (dest dmax src : Nat) (st : St)
     (hd : dest ≠ 0) (hbig : dmax > max) :
